@@ -2,9 +2,9 @@
 (* B1 generator for C12: fonts of the repository x character sets of every size (1 .. 150), drawn from pools that hit
    simple glyphs, composite glyphs (accented letters), several scripts, characters the font does not map, and both
    sides of the "skip subsetting" thresholds; plus glyph-driven subsets (by glyph id).                          *)
-EXTENDS Naturals, Sequences, TLC, Json
+EXTENDS SfntWriter, Json
 
-CONSTANTS NCases, Stride
+CONSTANTS NCases, Stride, NGen
 Fonts == <<"roboto", "sourcesans">>
 \* pools of code points
 Ascii == [i \in 1..94 |-> 32 + i]
@@ -28,6 +28,11 @@ Next == /\ ~done
         /\ PrintT(<<"REPLAY", ToJson([font |-> "roboto", chars |-> <<65, 8804, 8805, 11834, 11835, 233>>, k |-> 9001])>>)
         /\ PrintT(<<"REPLAY", ToJson([font |-> "sourcesans", chars |-> <<65, 66>>, k |-> 9002])>>)
         /\ PrintT(<<"REPLAY", ToJson([font |-> "sourcesans", chars |-> <<111, 113>>, k |-> 9003])>>)
+        \* generated fonts (SfntWriter): short and long loca, every composite form; subsets of 1, 3 and many characters
+        /\ \A g \in 0..(NGen - 1) :
+             LET short == g % 2 = 0
+                 chars == CASE g % 3 = 0 -> <<193, 8804>> [] g % 3 = 1 -> <<200, 65, 32, 66 + g>> [] OTHER -> SubSeq(GenChars, 1, 6 + g)
+             IN PrintT(<<"REPLAY", ToJson([font |-> "generated", fontBytes |-> FontBytes(g, short, 120000), chars |-> chars, k |-> 9100 + g])>>)
         /\ done' = TRUE
 Spec == Init /\ [][Next]_done
 =============================================================================
